@@ -43,8 +43,8 @@ type rec struct {
 	sent []Ev // chunk.write of the sender
 	cond *sync.Cond
 	// C20: delivered bodies are kept together with a deep snapshot taken at delivery
-	keep  bool
-	kept  []keptMsg
+	keep    bool
+	kept    []keptMsg
 	opnEnds atomic.Int64 // completed server-side OPN handlings of this channel (hook srv.opn.end)
 	// role flags
 	isRecv, isSend bool
@@ -54,7 +54,6 @@ type rec struct {
 func newRec() *rec { r := &rec{}; r.cond = sync.NewCond(&r.mu); return r }
 
 var reg sync.Map // *uasc.SecureChannel -> *rec
-
 
 func kvGet(kv []any, key string) any {
 	for i := 0; i+1 < len(kv); i += 2 {
